@@ -178,13 +178,20 @@ class _ExactLanguageSearch:
             to_parse = original
 
         parser = DateDataParser(languages=languages, settings=settings)
-        parsed, substrings = self.parse_found_objects(
-            parser=parser,
-            to_parse=to_parse,
-            original=original,
-            translated=translated,
-            settings=settings,
-        )
+        # relative bases are chained through the settings object while the
+        # found items are parsed; that object is shared with every parser
+        # created with the same settings, so put its own value back afterwards
+        original_relative_base = parser._settings.RELATIVE_BASE
+        try:
+            parsed, substrings = self.parse_found_objects(
+                parser=parser,
+                to_parse=to_parse,
+                original=original,
+                translated=translated,
+                settings=settings,
+            )
+        finally:
+            parser._settings.RELATIVE_BASE = original_relative_base
         parser._settings = Settings()
         return list(zip(substrings, [i[0]["date_obj"] for i in parsed]))
 
